@@ -25,8 +25,8 @@ Oracle (one clause per sentence of the property; see ``_classify``):
   replay-missing / replay-differs / spurious-replay : a poll repeating the previous poll's ack, whose previous answer carried a
       body, gets that body again and the simulator is not asked; any other poll is forwarded
   sim-event-lost / -duplicated / -reordered, swallowed-event-delivered : simulator events exactly once, in order, minus swallowed
-  injected-not-delivered / injected-duplicated / injected-misplaced : every injected event exactly once, appended to the first
-      simulator response that carries events after the injection
+  injected-not-delivered / injected-duplicated / injected-reordered : every injected event exactly once, in injection order, in the
+      first simulator response that carries events after the injection (position relative to simulator events not prescribed)
   emptied-not-undef : a response whose events were all swallowed (nothing injected) has the undef body
   undef-passthrough, non200-passthrough : 200/undef and non-200 answers reach the viewer unchanged and consume no injection
       (observed through the *next* response that carries events)
@@ -520,10 +520,12 @@ class Harness:
             if act.count(e) < inj.count(e):
                 self._bad(w, "injected-not-delivered", SITE_INJ, f"injected event {e[1:3]!r} missing from the first response carrying events")
         if sorted(act) == sorted(exp):
+            # same multiset: the statement orders simulator events among themselves and (FIFO) injected events among
+            # themselves; where injected events sit relative to simulator events is not prescribed
             if [a for a in act if a in kept] != kept:
                 self._bad(w, "sim-event-reordered", SITE_RESP, "simulator events reached the viewer in a different order")
-            else:
-                self._bad(w, "injected-misplaced", SITE_INJ, "injected events are not appended after the simulator's events in injection order")
+            if [a for a in act if a in inj and a not in kept] != inj:
+                self._bad(w, "injected-reordered", SITE_INJ, "injected events reached the viewer in a different order than injected")
 
     def _check_regions(self, w: World):
         m = w.m
